@@ -69,6 +69,7 @@ RULE = ("scenario cases: generated chain-allreduce traces (R ranks, G groups, ep
 TRUSTED = ["hash((pid, CollGroup)) is injective on the queue keys (modelled as the pair itself)",
            "numpy float64 max / argmin / subtraction behave as documented; doubles are exact on the generated grid",
            "copy.deepcopy of the buffered events is a value copy",
+           "list.sort is a stable sort (the model uses the stable insertion sort; the result of a stable sort is unique)",
            "the stage-level input is what the real prefix pipeline (ingestion .. tighten_hts_by_instr_type) produced; "
            "those stages are not modelled here (C05/C06), only `ts_dev = TSi/freq` is (convDev)"]
 ASSUMPTIONS = ["types.GlobalIngestData._jobmap (class-level, survives between in-process runs; crc32(path) % 10000 keys can collide "
